@@ -172,6 +172,28 @@ def run(run, thorough):
             faulted.append(s)
             metas.append(meta)
             plans.append(plan)
+    # the entry disappears (somebody else removes it) between the creation of its .trashinfo and the move: the move fails with ENOENT,
+    # the reservation must be undone and the failure reported - not success with a .trashinfo that describes nothing
+    vanish = []
+    for (scn, meta), res in zip(bases, base_res):
+        if res.get('harness_error') or not res.get('steps') or len(meta['args']) != 1 or not meta['args'][0]['entry']:
+            continue
+        muts = res['steps'][0].get('muts', [])
+        if 'write' not in muts or res['steps'][0].get('exit') != 0:
+            continue
+        s = copy.deepcopy(scn)
+        s['steps'][0]['plan'] = {'midfs': {'after': muts.index('write') + 1, 'ops': [['remove', engine.physical(res['before'], meta['args'][0]['entry'])]]}}
+        vanish.append(s)
+    outv = engine.run_all(run, 'vanishing-source', vanish[:40 if not thorough else 400], strict=False)
+    for scn, res in outv:
+        o = res['steps'][0]
+        run.count('vanishing-source-state')
+        pairs, strays, orphans = putlib.new_trash_items(res['before'], o['after'])
+        if o.get('looping') or o['exit'] == 0 or strays or pairs:
+            run.fail('oracle', 'the entry vanished before the move: trash-put must report the failure and leave no .trashinfo behind',
+                     {'scenario': scn, 'exit': o['exit'], 'strays': strays, 'pairs': pairs, 'stderr': o['stderr'][-300:]},
+                     key='vanished-source-not-reported', section='vanishing-source-state')
+        run.nontriv(('vanish', o['exit'], bool(strays)))
     # two syscall-level faults inside ONE library call: the rename of a directory is refused (the move degrades to copy + delete),
     # then one of the last steps of the delete is refused too
     firsts = []
